@@ -7,7 +7,7 @@ def prof(name, quick, thorough, **kw):
 
 L1_TRUST = ['L1 model (coq/theories/L1/Model.v): control skeleton hand-written, tied by translator facts and the correspondence replay']
 
-CORR_L2 = {'kind': 'l2', 'profiles': [prof('fut', (60, 5), (600, 10), extra=['--max-pool', '1']), prof('fut', (40, 5), (400, 10), extra=['--max-pool', '0']), prof('fut', (40, 5), (400, 10), extra=['--min-pool', '2']), prof('susp', (60, 5), (600, 10)), prof('progs:wake_sweep.progs', (0, 8), (0, 60)), prof('progs:fut_extra.progs', (0, 8), (0, 60))]}
+CORR_L2 = {'kind': 'l2', 'profiles': [prof('fut', (60, 5), (600, 10), extra=['--max-pool', '1']), prof('fut', (40, 5), (400, 10), extra=['--max-pool', '0']), prof('fut', (40, 5), (400, 10), extra=['--min-pool', '2']), prof('susp', (60, 5), (600, 10)), prof('progs:wake_sweep.progs', (0, 8), (0, 60)), prof('progs:fut_extra.progs', (0, 8), (0, 60)), prof('fsync', (60, 5), (600, 10)), prof('progs:cancel.progs', (0, 10), (0, 60)), prof('progs:syncfut_extra.progs', (0, 6), (0, 40)), prof('progs:fsync_pool0.progs', (0, 8), (0, 60)), prof('progs:f6_waiter_takeover.progs', (0, 8), (0, 60)), prof('progs:susp_extra.progs', (0, 8), (0, 60))]}
 CORR_L1 = {'profiles': [prof('corpus', (0, 6), (0, 40)), prof('core', (40, 5), (600, 10)), prof('sync', (30, 5), (400, 10)), prof('try', (30, 5), (400, 10)), prof('pool', (40, 5), (400, 10))]}
 
 L2_TRUST = ['L2 model (coq/theories/L2/Model.v): ONE queue with futures, three runner contexts and in-flight wakes, hand-written; the pool abstracted as runners that may take a scheduled queue (hand-over justified by L1: L-quiet/C10 matching invariant); sync_background reduced to a blocking wait; tied by the generated waker/poll tables and facts and by the wake-position sweeps - no log replay for this layer yet']
@@ -72,7 +72,7 @@ PROPS = {
     'C08': {
         'coq': ['theories/SyncFut/PropsC08.vo', 'theories/Inst/C08_now.vo', 'theories/Inst/Jobs_now.vo', 'theories/L2/PropsC08.vo', 'theories/L2/Inst.vo'],
         'profiles': [prof('fsync', (100, 20), (2500, 60)), prof('progs:cancel.progs', (0, 400), (0, 6000)), prof('progs:f6_waiter_takeover.progs', (0, 60), (0, 1500)), prof('progs:fsync_pool0.progs', (0, 40), (0, 1000))],
-        'correspondence': {'kind': 'syncfut', 'profiles': [prof('fsync', (60, 5), (600, 10)), prof('progs:syncfut_extra.progs', (0, 10), (0, 60)), prof('progs:cancel.progs', (0, 10), (0, 60))]},
+        'correspondence': [CORR_L2, {'kind': 'syncfut', 'profiles': [prof('fsync', (60, 5), (600, 10)), prof('progs:syncfut_extra.progs', (0, 10), (0, 60)), prof('progs:cancel.progs', (0, 10), (0, 60))]}],
         'monitors': ['C08', 'C01', 'C02', 'C05'], 'liveness': True, 'panics': True,
         'trusted_base': ['SyncFut model (coq/theories/SyncFut/Model.v): hand-written; the queue abstracted as one-at-a-time FIFO execution with the slot job and other operations possibly suspended (justified by C01/C02), the queue runner excluded while the polling task drains (justified by the ownership invariant); tied by translator facts, by the replay of logged executions of the real crate on the extracted model (driver/syncfut/replay_syncfut.ml: every oneshot operation, result-cell section and harness marker must be an enabled model step with the same label and poll result, and the final order of observables must equal the model\'s ghost log) and by the run-time oracles'],
         'assumptions': ['TWO models: SyncFut (abstract one-at-a-time queue, every drop point, zero pool incl.) and since the last round L2 itself (the real queue machinery: OFutSync with the slot job as a queue job, two oneshot cells, SyncFuture::poll step by step): C08_1..C08_5_L2 + refutation for the reversed field order; C08_5_L2 needs >= 1 pool runner (zero pool: SyncFut). terminal-state form of "releases the queue" (no termination measure); a hand-written future that still owns captures after returning Ready would release them outside the slot (Desync::future_sync wraps the job in an async block, so this cannot happen through the safe API)'],
